@@ -249,7 +249,15 @@ def check_delegation(rep, f):
     for name, d in sorted(sib.items()):
         if len(d) == 2:
             (t1, b1), (t2, b2) = d["Float"], d["FloatCore"]
-            rep.check(t1 == t2, "R16x", "Float::%s vs FloatCore::%s" % (name, name), "sibling:" + name,
+            same = t1 == t2
+            if not same:
+                # the same decisions spelled differently in the two impl blocks (`a || b` vs a tuple match)
+                try:
+                    from . import dectree as D
+                    same = D.equivalent(D.expand_bool_leaves(t1), D.expand_bool_leaves(t2)) is None
+                except RuntimeError:
+                    same = False
+            rep.check(same, "R16x", "Float::%s vs FloatCore::%s" % (name, name), "sibling:" + name,
                       "Float::%s and FloatCore::%s differ: %s vs %s" % (name, name, vg.show(t1)[:200], vg.show(t2)[:200]), where=H.where(b1),
                       detail="identical op-level trees", nontrivial=False)
     # provided-but-not-overridden trait methods that have an inherent namesake
@@ -274,7 +282,8 @@ def check_delegation(rep, f):
         b = f.get(ident)
         if b is None:
             rep.fail("R16", ident, "anchor-lost:" + ident, "%s not found" % ident); continue
-        t = H.tree_of(f, b, "op")
+        # (either of the two Inv impls may be the one that forwards to the other: the by-value one is read in place)
+        t = H.tree_of(f, b, "op", inline_extra=("<TwoFloat as num_traits::Inv>::inv",))
         exp = mk("call", "TwoFloat::recip", P(0))
         rep.check(t[0] == "leaf" and t[1] is exp, "R16", ident, "delegation:" + ident, "Inv::inv is not recip(self): %s" % vg.show(t)[:200], where=H.where(b), detail=exp)
         n_checked += 1
